@@ -142,17 +142,50 @@ theorem repl_idem (ch : Char) : repl (repl ch) = repl ch := by
   · simp [h]
   · simp [h]
 
-/-- reading back through the name derived from a listed file name finds that very file (ids without `.`) -/
-theorem fileName_stem {id : String} (h : noChar '.' id) : fileName (stem (fileName id)) = fileName id := by
+theorem dropExt_json (r : List Char) : dropExt (r ++ ['.', 'j', 's', 'o', 'n']) = r := by
+  unfold dropExt
+  simp [List.reverse_append]
+
+theorem takeWhile_append_of_exists {p : Char → Bool} : ∀ (m t : List Char), (∃ c ∈ m, p c = false) →
+    (m ++ t).takeWhile p = m.takeWhile p ∧ (m ++ t).dropWhile p = m.dropWhile p ++ t
+  | [], _, h => by obtain ⟨c, hc, _⟩ := h; cases hc
+  | x :: xs, t, h => by
+    cases hx : p x
+    · simp [List.takeWhile_cons, List.dropWhile_cons, hx]
+    · obtain ⟨c, hc, hpc⟩ := h
+      have : ∃ c ∈ xs, p c = false := by
+        rcases List.mem_cons.1 hc with rfl | hc'
+        · rw [hx] at hpc; cases hpc
+        · exact ⟨c, hc', hpc⟩
+      have ih := takeWhile_append_of_exists xs t this
+      simp [List.takeWhile_cons, List.dropWhile_cons, hx, ih.1, ih.2]
+
+/-- `splitext` of `<m>.json` gives `m` back as soon as `m` is not made of dots only - dots INSIDE `m` do not matter -/
+theorem stem_toList (m : List Char) (h : ∃ c ∈ m, c ≠ '.') :
+    (stem (String.ofList (m ++ ['.', 'j', 's', 'o', 'n']))).toList = m := by
+  have h' : ∃ c ∈ m, (c == '.') = false := by
+    obtain ⟨c, hc, hne⟩ := h; exact ⟨c, hc, by simpa using hne⟩
+  obtain ⟨h1, h2⟩ := takeWhile_append_of_exists (p := (· == '.')) m ['.', 'j', 's', 'o', 'n'] h'
+  unfold stem
+  simp only [String.toList_ofList, h1, h2]
+  have hc : (List.dropWhile (· == '.') m ++ ['.', 'j', 's', 'o', 'n']).contains '.' = true := by simp
+  rw [if_pos hc, dropExt_json, String.toList_ofList, List.takeWhile_append_dropWhile]
+
+/-- an id that does not consist of dots only (every id a cassette hands out holds a `/`) -/
+def NotAllDots (id : String) : Prop := ∃ c ∈ id.toList, c ≠ '.'
+
+theorem notAllDots_of_slash {id : String} (h : '/' ∈ id.toList) : NotAllDots id := ⟨'/', h, by decide⟩
+
+/-- reading back through the name derived from a listed file name finds that very file - whatever dots the id holds
+(before F14 the name was cut at its FIRST dot and this needed dot-free ids) -/
+theorem fileName_stem {id : String} (h : NotAllDots id) : fileName (stem (fileName id)) = fileName id := by
   apply String.ext
-  have hstem : (stem (fileName id)).toList = id.toList.map repl := by
-    unfold stem
-    rw [String.toList_ofList, fileName_toList, List.takeWhile_append_of_pos, json_toList]
-    · simp
-    · intro ch hch
-      obtain ⟨a, ha, rfl⟩ := List.mem_map.1 hch
-      have : a ≠ '.' := fun heq => h (heq ▸ ha)
-      simpa using repl_ne_dot this
+  have hm : ∃ c ∈ id.toList.map repl, c ≠ '.' := by
+    obtain ⟨c, hc, hne⟩ := h
+    exact ⟨repl c, List.mem_map.2 ⟨c, hc, rfl⟩, repl_ne_dot hne⟩
+  have hfn : fileName id = String.ofList (id.toList.map repl ++ ['.', 'j', 's', 'o', 'n']) := by
+    apply String.ext; rw [fileName_toList, json_toList, String.toList_ofList]
+  have hstem : (stem (fileName id)).toList = id.toList.map repl := by rw [hfn]; exact stem_toList _ hm
   have hidem : List.map (repl ∘ repl) id.toList = List.map repl id.toList :=
     List.map_congr_left (fun a _ => repl_idem a)
   rw [fileName_toList, fileName_toList, hstem, List.map_map, hidem]
@@ -183,9 +216,9 @@ theorem startsWith_fileName_category (id : String) : startsWith (fileName id) (c
   rw [h1]
   exact ((List.takeWhile_prefix _).map repl).trans (List.prefix_append _ _)
 
-/-- the directory as the cassette writes it: one file per recording, named after its id; ids contain no `.` -/
+/-- the directory as the cassette writes it: one file per recording, named after its id (ids may hold dots, F14) -/
 def FileStoreWF (dir : List (String × Rec)) : Prop :=
-  (dir.map (·.1)).Nodup ∧ ∀ e ∈ dir, e.1 = fileName e.2.id ∧ noChar '.' e.2.id
+  (dir.map (·.1)).Nodup ∧ ∀ e ∈ dir, e.1 = fileName e.2.id ∧ NotAllDots e.2.id
 
 theorem find?_of_nodup {α : Type} : ∀ (l : List (String × α)) (e : String × α), (l.map (·.1)).Nodup → e ∈ l →
     l.find? (fun x => x.1 == e.1) = some e
@@ -328,7 +361,7 @@ theorem listS3_selection (glob : String → String → Bool) (ch : Nat → Nat) 
 /-! ### the three cassettes behind one interface -/
 
 /-- what the cassettes guarantee about their own stores: ids are `category/rest` with slash-free categories and are
-pairwise distinct (uuid1); the file cassette's directory has one file per recording, named after its id (no `.` in ids) -/
+pairwise distinct (uuid1); the file cassette's directory has one file per recording, named after its id -/
 def Store.WF (st : Store) : Prop :=
   WFIds st.saved ∧ (st.saved.map (·.id)).Nodup ∧
     (match st with
